@@ -207,6 +207,7 @@ func ruleCoreRecover() check.Rule {
 				rv := recvObj(info, fd)
 				var subscribeCall *ast.CallExpr
 				handlerEmits, handlerUnsubs := false, false
+				var emitPos, unsubPos token.Pos
 				ast.Inspect(fd.Body, func(n ast.Node) bool {
 					call, ok := n.(*ast.CallExpr)
 					if !ok {
@@ -219,9 +220,13 @@ func ruleCoreRecover() check.Rule {
 					if _, inCatch := position(fd, call); inCatch {
 						if name, ok := m.Obj.ObserverMethods[callee]; ok && strings.HasPrefix(name, "Error") {
 							handlerEmits = true
+							emitPos = call.Pos()
 						}
 						if name, ok := m.Obj.SubscriptionMethods[callee]; ok && name == "Unsubscribe" {
 							handlerUnsubs = true
+							if unsubPos == token.NoPos {
+								unsubPos = call.Pos()
+							}
 						}
 					}
 					return true
@@ -232,7 +237,9 @@ func ruleCoreRecover() check.Rule {
 					c.Undecided(key, fd.Pos(), "call of the subscribe field not found")
 				default:
 					inTry, _ := position(fd, subscribeCall)
-					if inTry && handlerEmits && handlerUnsubs {
+					if inTry && handlerEmits && handlerUnsubs && unsubPos < emitPos {
+						c.Violation(key, subscribeCall.Pos(), "the recover handler unsubscribes before it sends the Error notification: the subscriber is closed by then, so the panic of the subscribe function is silently dropped instead of reaching the observer")
+					} else if inTry && handlerEmits && handlerUnsubs {
 						c.OK(key, subscribeCall.Pos(), "subscribe function runs inside TryCatch; the handler emits ErrorWithContext and unsubscribes")
 					} else {
 						c.Violation(key, subscribeCall.Pos(), "the subscribe function is not protected as required (inside try=%v, handler emits Error=%v, handler unsubscribes=%v): a panic escapes into the caller of Subscribe or leaves the subscription open", inTry, handlerEmits, handlerUnsubs)
@@ -679,6 +686,35 @@ func ruleLockPairing() check.Rule {
 					}
 					if !bad && armed {
 						c.OK(key+"/paired", fn.Pos(), "%d lock operations, every exit (%d) releases what it took", len(res.Ops), len(res.Exits))
+					}
+				}
+			}
+			// a local closure that locks a mutex must not be called where that mutex is already held
+			h := newHeldDB(m)
+			for holder, refs := range h.calls {
+				for _, d := range m.Defs[holder] {
+					lit, ok := ast.Unparen(d.Expr).(*ast.FuncLit)
+					if d.Expr == nil || !ok {
+						continue
+					}
+					for _, cr := range refs {
+						acquired := map[string]bool{}
+						for _, op := range lockResult(cr.pkg, lit).Ops {
+							if (op.Kind == "Lock" || op.Kind == "RLock") && !op.Defer {
+								acquired[op.Key] = true
+							}
+						}
+						if len(acquired) == 0 {
+							continue
+						}
+						held := h.heldAt(cr.pkg, cr.call)
+						for k := range acquired {
+							if held[k] {
+								chain := m.EnclosingFuncs(cr.pkg, cr.call)
+								key := chainKey(m, cr.pkg, chain, scs) + "/call-" + holder.Name() + "-holding-" + lockShort(k)
+								c.Report(c.ArmedPkg(cr.pkg.PkgPath), key, cr.call.Pos(), "%s() locks %s, and it is called here with %s already held: the goroutine dead-locks on its own mutex", holder.Name(), lockShort(k), lockShort(k))
+							}
+						}
 					}
 				}
 			}
